@@ -293,6 +293,9 @@ def run_check(pid: str, tier: str, seed: int, only_defs=None, replay_mode=False)
             cov["unevaluated_after_a_non_terminating_observer"] = unevaluated_after_stall
         if probe_broken:
             cov["generator_probe"] = {"status": "unavailable", "why": probe_broken[:400], "queries_not_evaluated": unevaluated_probe_queries}
+        if any(G.NAME_STATS.values()):
+            # variants with non-ASCII identifiers: who named them (Model/HeckU.v on the probe's character table | the Rust reference)
+            cov["non_ascii_variant_names"] = dict(G.NAME_STATS)
         if hasattr(mod, "extra_coverage"):
             cov.update(mod.extra_coverage(corpus, tier))
         R.write_evidence(pid, tier, seed, cov, list(getattr(mod, "ASSUMPTIONS", [])), reported)
